@@ -1,5 +1,6 @@
 //! nbverif: pure executor. Reads cases on stdin, writes one observation line per case.
 mod list;
+mod syntax;
 
 fn main() {
     let args: Vec<String> = std::env::args().collect();
@@ -11,6 +12,7 @@ fn main() {
     std::panic::set_hook(Box::new(|_| {}));
     match args[1].as_str() {
         "list" => list::main(),
+        "syntax" => syntax::main(),
         other => {
             eprintln!("unknown subcommand {other}");
             std::process::exit(2);
